@@ -309,4 +309,119 @@ mutual
           List.zipWith_cons_cons]
 end
 
+/-! ### no error branch is ever taken — for ALL values, well-shaped or not -/
+
+theorem seqBranch_total (n m : Nat) (bs : List Bool) (h : bs.length = min n m) :
+    ∃ v, seqBranch n m (.ok bs) = .ok v := by
+  unfold seqBranch
+  by_cases hl : n = m
+  · rw [if_neg (by simpa using hl)]
+    by_cases h0 : n = 0
+    · rw [if_pos h0]; exact ⟨_, rfl⟩
+    · rw [if_neg h0]
+      have hne : bs ≠ [] := by
+        intro e; rw [e] at h; simp only [List.length_nil] at h; omega
+      simp only [Except.bind, minR_of_ne_nil _ hne]; exact ⟨_, rfl⟩
+  · rw [if_pos hl]; exact ⟨_, rfl⟩
+
+theorem cellsBranch_total (s : List Nat) (bs : List Bool) : ∃ v, cellsBranch s s (.ok bs) = .ok v := by
+  unfold cellsBranch
+  cases h0 : s.contains 0 with
+  | true => exact ⟨_, rfl⟩
+  | false =>
+    simp only [Bool.false_eq_true, if_false, veqShape_self s h0, Except.bind, Except.map]; exact ⟨_, rfl⟩
+
+theorem arrBranch_total (s t : List Nat) (bs : List Bool) : ∃ v, arrBranch s t (.ok bs) = .ok v := by
+  unfold arrBranch
+  by_cases hst : s = t
+  · subst hst; rw [if_neg (by simp)]; exact cellsBranch_total s bs
+  · rw [if_pos hst]; exact ⟨_, rfl⟩
+
+theorem dictBranch_total {α} (c d : Nat) (a b : List (String × α)) (bs : List Bool)
+    (h : bs.length = min a.length b.length) : ∃ v, dictBranch c d a b (.ok bs) = .ok v := by
+  unfold dictBranch
+  by_cases hg : c ≠ d ∨ a.length ≠ b.length
+  · rw [if_pos hg]; exact ⟨_, rfl⟩
+  · rw [if_neg hg]
+    by_cases h0 : a.length = 0
+    · rw [if_pos h0]; exact ⟨_, rfl⟩
+    · rw [if_neg h0]
+      have hl : a.length = b.length := by
+        by_cases hl : a.length = b.length
+        · exact hl
+        · exact absurd (Or.inr hl) hg
+      have ha : a ≠ [] := fun e => h0 (by rw [e]; rfl)
+      have hb : b ≠ [] := fun e => h0 (by rw [hl, e]; rfl)
+      simp only [unzipR_of_ne_nil a ha, unzipR_of_ne_nil b hb, Except.bind]
+      by_cases hk : a.map (·.1) = b.map (·.1)
+      · rw [if_neg (by simpa using hk)]
+        exact seqBranch_total _ _ bs (by simpa using h)
+      · rw [if_pos (by simpa using hk)]; exact ⟨_, rfl⟩
+
+mutual
+  theorem eqNR_total : ∀ (a b : EVal), ∃ v, eqNR a b = .ok v
+    | .cell _, b => by cases b <;> (simp only [eqNR]; exact ⟨_, rfl⟩)
+    | .date _, b => by cases b <;> (simp only [eqNR]; exact ⟨_, rfl⟩)
+    | .list xs, b => by
+        cases b <;> try (simp only [eqNR]; exact ⟨_, rfl⟩; done)
+        rename_i ys
+        obtain ⟨bs, hz, hl⟩ := zipR_total xs ys
+        simp only [eqNR, hz]; exact seqBranch_total _ _ bs hl
+    | .tuple xs, b => by
+        cases b <;> try (simp only [eqNR]; exact ⟨_, rfl⟩; done)
+        rename_i ys
+        obtain ⟨bs, hz, hl⟩ := zipR_total xs ys
+        simp only [eqNR, hz]; exact seqBranch_total _ _ bs hl
+    | .arr s xs, b => by
+        cases b <;> try (simp only [eqNR]; exact ⟨_, rfl⟩; done)
+        rename_i t ys
+        obtain ⟨bs, hz, _⟩ := zipR_total xs ys
+        simp only [eqNR, hz]; exact arrBranch_total s t bs
+    | .series i xs, b => by
+        cases b <;> try (simp only [eqNR]; exact ⟨_, rfl⟩; done)
+        rename_i j ys
+        obtain ⟨bs, hz, _⟩ := zipR_total xs ys
+        simp only [eqNR, hz]
+        cases hi : idxEq i j with
+        | false => exact ⟨false, by simp⟩
+        | true =>
+          simp only [Bool.not_true, Bool.false_eq_true, if_false, ← idxEq_length i j hi]
+          exact cellsBranch_total _ bs
+    | .frame i c xs, b => by
+        cases b <;> try (simp only [eqNR]; exact ⟨_, rfl⟩; done)
+        rename_i j d ys
+        obtain ⟨bs, hz, _⟩ := zipR_total xs ys
+        simp only [eqNR, hz]
+        cases hi : idxEq i j with
+        | false => exact ⟨false, by simp⟩
+        | true =>
+          cases hc : idxEq c d with
+          | false => exact ⟨false, by simp⟩
+          | true =>
+            simp only [Bool.not_true, Bool.false_eq_true, if_false, ← idxEq_length i j hi, ← idxEq_length c d hc]
+            exact cellsBranch_total _ bs
+    | .dict c a, b => by
+        cases b <;> try (simp only [eqNR]; exact ⟨_, rfl⟩; done)
+        rename_i d b
+        obtain ⟨bs, hz, hl⟩ := zipValsR_total a b
+        simp only [eqNR, hz]; exact dictBranch_total c d a b bs hl
+  theorem zipR_total : ∀ (xs ys : List EVal), ∃ bs, zipR xs ys = .ok bs ∧ bs.length = min xs.length ys.length
+    | [], _ => ⟨[], by simp [zipR], by simp⟩
+    | _ :: _, [] => ⟨[], by simp [zipR], by simp⟩
+    | x :: xs, y :: ys => by
+        obtain ⟨v, hv⟩ := eqNR_total x y
+        obtain ⟨bs, hz, hl⟩ := zipR_total xs ys
+        refine ⟨v :: bs, by simp only [zipR, hv, hz, Except.bind, Except.map], ?_⟩
+        simp only [List.length_cons, hl]; omega
+  theorem zipValsR_total : ∀ (a b : List (String × EVal)),
+      ∃ bs, zipValsR a b = .ok bs ∧ bs.length = min a.length b.length
+    | [], _ => ⟨[], by simp [zipValsR], by simp⟩
+    | _ :: _, [] => ⟨[], by simp [zipValsR], by simp⟩
+    | x :: xs, y :: ys => by
+        obtain ⟨v, hv⟩ := eqNR_total x.2 y.2
+        obtain ⟨bs, hz, hl⟩ := zipValsR_total xs ys
+        refine ⟨v :: bs, by simp only [zipValsR, hv, hz, Except.bind, Except.map], ?_⟩
+        simp only [List.length_cons, hl]; omega
+end
+
 end Pyg
